@@ -143,8 +143,14 @@ class World:
     def __init__(self):
         self.root = os.path.realpath(tempfile.mkdtemp(prefix="dippy-verif-"))
         os.chmod(self.root, 0o755)
-        for d in ("home", "trees", "store", "links", "out", "logs", "procwd", "chome", "neutral", "envs"):
+        for d in ("home", "trees", "store", "links", "out", "logs", "procwd", "envs"):
             os.makedirs(os.path.join(self.root, d))
+        # the one-concatenated-file runs live in a scratch directory of their own: nothing a layout puts into the
+        # world (a .dippy at its very top included) is an ancestor of their cwd or of their HOME
+        self.aside = os.path.realpath(tempfile.mkdtemp(prefix="dippy-verif-"))
+        os.chmod(self.aside, 0o755)
+        for d in ("chome", "neutral"):
+            os.makedirs(os.path.join(self.aside, d))
         self.home = os.path.join(self.root, "home")
         self.tx = Texts(self.root)
         self.capdrop = self._probe_capdrop()
@@ -252,7 +258,7 @@ class World:
 
     def concat_home(self, text):
         key = lib.sha(text)
-        home = os.path.join(self.root, "chome", key)
+        home = os.path.join(self.aside, "chome", key)
         if not os.path.isdir(home):
             os.makedirs(os.path.join(home, ".dippy"))
             with open(os.path.join(home, ".dippy", "config"), "w", encoding="utf-8") as f:
@@ -263,7 +269,7 @@ class World:
         key, home = self.concat_home(text)
         if key in self.concat_cache:
             return lambda: self.concat_cache[key]
-        thunk = self.submit_vector(os.path.join(self.root, "neutral"), "json", home, None)
+        thunk = self.submit_vector(os.path.join(self.aside, "neutral"), "json", home, None)
 
         def collect():
             self.concat_cache[key] = thunk()
@@ -273,7 +279,7 @@ class World:
     def concat_log_probe(self, text):
         key, home = self.concat_home(text)
         if key not in self.concat_log_cache:
-            self.concat_log_cache[key] = self.log_probe(os.path.join(self.root, "neutral"), "json", home, None)
+            self.concat_log_cache[key] = self.log_probe(os.path.join(self.aside, "neutral"), "json", home, None)
         return self.concat_log_cache[key]
 
     def concat_vector(self, text, with_log):
@@ -297,6 +303,7 @@ class World:
             except OSError:
                 pass
         shutil.rmtree(self.root, ignore_errors=True)
+        shutil.rmtree(self.aside, ignore_errors=True)
 
 
 # ------------------------------------------------------------------------------------------------ building a layout
@@ -910,13 +917,18 @@ class Lane:
         assert self.world.ask(op="user_config")["ok"] == os.path.join(self.world.home, ".dippy", "config")
 
     def run(self, specs):
+        from . import c10_alias
         for spec in specs:
-            self.model = check_case(self.world, self.model, self.out, spec, self.line_cache, self.xcheck)
+            if spec.get("alias"):
+                self.model = c10_alias.check_alias(self.world, self.model, self.out, spec, self.line_cache, self.xcheck)
+            else:
+                self.model = check_case(self.world, self.model, self.out, spec, self.line_cache, self.xcheck)
             fresh = sum(1 for v in self.out.violations if v.get("call_site") != CS_DEFAULT)
             if fresh + len(self.out.disagreements) > 15:
                 self.out.notes.append(f"lane stopped after case {spec['id']}: more than 15 failures already recorded")
                 break
-            self.texts += [spec["user"]["text"], spec["env"]["text"]] + [l["text"] for l in spec["levels"] if l.get("text")]
+            if not spec.get("alias"):
+                self.texts += [spec["user"]["text"], spec["env"]["text"]] + [l["text"] for l in spec["levels"] if l.get("text")]
 
     def close(self):
         self.model.close()
@@ -953,17 +965,40 @@ def run(tier, seed, replay=None):
         out.extra["permission_cases"] = ("root with CAP_DAC_OVERRIDE/CAP_DAC_READ_SEARCH dropped by setpriv" if world.capdrop
                                          else "non-root" if capdrop_ok else "SKIPPED: root and no setpriv")
         out.extra["parallel_scratch_worlds"] = n_lanes
+        from . import c10_alias
         if replay:
-            spec = dict(replay["spec"])
+            spec = dict(replay["aspec"] if "aspec" in replay else replay["spec"])
             spec["id"] = 0
             specs = [spec]
         else:
             discrimination(world, out)
+            c10_alias.order_matters(world, out, quick=(tier == "quick"))
             specs = systematic(rng, world.tx, capdrop_ok, quick=(tier == "quick"))
             out.extra["systematic_cases"] = len(specs)
             total = 200 if tier == "quick" else 1500
             while len(specs) < total:
                 specs.append(rand_spec(rng, world.tx, len(specs), capdrop_ok))
+            # second stream: identity and aliasing of the layer files (harness/c10_alias.py)
+            arng = random.Random(seed + 10)
+            rows = c10_alias.systematic(arng, quick=(tier == "quick"))
+            n_core = len(c10_alias.core_rows())
+            out.extra["alias_systematic_cases"] = {"core products (env target x spelling; project level x tree location)": n_core,
+                                                   "all-pairs cover": len(rows) - n_core}
+            n_sys = len(rows)
+            for _ in range(40 if tier == "quick" else 900):
+                rows.append(c10_alias.rand_row(arng))
+            for k, row in enumerate(rows):
+                a = c10_alias.mk_aspec(world.tx, len(specs), row)
+                # quick tier: the hook subprocess vector where $DIPPY_CONFIG names another layer's file (every spelling), on
+                # the level x location rows and on every eighth other case; the in-process oracle, the bash ground truth
+                # and the model on all of them
+                if tier == "quick":
+                    a["hook"] = (k < n_core and (row["target"] in ("U", "P") or not row["far"])) or k % 8 == 0
+                else:       # every systematic row, every third random row
+                    a["hook"] = k < n_sys or k % 3 == 0
+                if row["user"] == "noread" and not capdrop_ok:
+                    continue
+                specs.append(a)
         with ThreadPoolExecutor(max_workers=n_lanes) as ex:
             futs = [ex.submit(lane.run, specs[k::n_lanes]) for k, lane in enumerate(lanes)]
             for f in futs:
@@ -995,5 +1030,16 @@ def run(tier, seed, replay=None):
         "with/without final newline. distinct = distinct (kinds, texts, depth, cwd mode) tuples; non-trivial = at least one "
         "layer present or an unreadable layer. Each case = 10 probe inputs to the real hook (+1 decision-log probe) compared "
         "with the one-concatenated-file run, the in-process load_config compared with parse_config(concatenated text), and "
-        "the Coq model compared with both load_config and _find_project_config.")
+        "the Coq model compared with both load_config and _find_project_config.  SECOND STREAM (harness/c10_alias.py), identity "
+        "and aliasing of the layer files: which file $DIPPY_CONFIG names (own file, the user config, the nearest .dippy, a "
+        "shadowed .dippy further up) x how it is spelled (absolute, symlink, relative symlink, link chain, relative path, ~, "
+        "`..`, `.`, `//`, hard link, symlinked directory, `..` after a symlinked directory, same bytes in another file, trailing "
+        "slash) in full; all PAIRS of {what ~/.dippy/config is (own file, absent, symlink/hard link/copy of the project file, "
+        "symlink to the env file or to the shadowed .dippy, ~/.dippy a symlinked directory, HOME a symlink, directory, dangling, "
+        "mode 000), what the nearest .dippy is (own file, none, absolute/relative symlink, hard link, copy of the user config, "
+        "symlink/hard link to the env file, symlink to the shadowed .dippy, directory, dangling, a link loop through the user "
+        "config), env target, spelling, level of the project file (cwd .. 3 up, above the tree), tree outside HOME / under HOME / "
+        "inside ~/.dippy, how the cwd reaches the hook, assignment of allow/deny/ask to the texts}; random rows.  Ground truth = "
+        "the three texts as a bash script reads them; identity measured with os.stat and handed to the model "
+        "(load_config_fs).  Every layer text decides every probe, so a layer dropped, added or moved changes an answer.")
     return out
